@@ -91,7 +91,7 @@ Definition a_dump_node (t : itree) (D : nfilter) (Fs : list nfilter) (n : nid) :
        ++ frame 13 i (ok enc_ids (filter P (a_descendants t n)))
        ++ frame 15 i (ok enc_ids (filter F (a_ancestors t n)))
        ++ frame 17 i (ok enc_ids (filter P (a_following t n)))
-       ++ frame 18 i (ok enc_ids (filter P (a_preceding t n)))
+       ++ frame 18 i (ok enc_ids (filter F (a_preceding t n)))      (* the ambient filter does not apply *)
        (* traversers: the given root is always part of the enumeration; the rest is the documented order *)
        ++ frame 20 i (ok enc_ids (root_first (a_bf_ttb t n) P))
        ++ frame 21 i (ok enc_ids (filter (fun x => N.eqb x n || P x) (a_df_btt t n)))
